@@ -29,6 +29,12 @@ pub enum HStep {
     /// a data segment on flow f with a wrong acknowledgement number
     BadAck { f: u8, delta: u32 },
     Syn { f: u8 },
+    /// non-data TCP segment (FIN|ACK, ACK, RST, FIN, SYN|ACK ...) on flow f whose sequence /
+    /// acknowledgement numbers are related to flow g's cookie (ack = cookie(g)+1, seq = cookie(g))
+    NonData { f: u8, g: u8, flags: u16, seq_is_cookie: bool },
+    /// traffic that shares part of a flow's identity: the flows' client IP address with another
+    /// source MAC, or the flows' MAC with another IP address (ARP request, echo, SYN, UDP)
+    Alias { kind: u8, mac: [u8; 6], same_ip: bool },
     Other(Step),
 }
 
@@ -61,6 +67,8 @@ pub fn case_strategy() -> impl Strategy<Value = Case> {
                 8 => (0u8..3, prop_oneof![2 => 1u8..12, 2 => 12u8..80, 1 => Just(255u8)]).prop_map(|(f, len)| HStep::Chunk { f, len }),
                 1 => (0u8..3, 1u32..100000).prop_map(|(f, delta)| HStep::BadAck { f, delta }),
                 1 => (0u8..3).prop_map(|f| HStep::Syn { f }),
+                2 => (0u8..3, 0u8..3, prop::sample::select(vec![F_FIN | F_ACK, F_ACK, F_RST, F_RST | F_ACK, F_FIN, F_SYN | F_ACK, F_FIN | F_ACK | F_URG]), any::<bool>()).prop_map(|(f, g, flags, seq_is_cookie)| HStep::NonData { f, g, flags, seq_is_cookie }),
+                2 => (0u8..4, mac_unicast(), any::<bool>()).prop_map(|(kind, mac, same_ip)| HStep::Alias { kind, mac, same_ip }),
                 4 => step_noise().prop_map(HStep::Other),
             ],
             2..=24,
@@ -125,6 +133,29 @@ fn play(c: &Case, st: &mut Stats) -> Result<Vec<Played>, Failure> {
                 flows[fi].data(101, cookies[fi].wrapping_add(1).wrapping_add(*delta), b"GET / HTTP/1.1\r\n\r\n")
             }
             HStep::Syn { f } => flows[*f as usize % 3].syn(100),
+            HStep::NonData { f, g, flags, seq_is_cookie } => {
+                let (fi, gi) = (*f as usize % 3, *g as usize % 3);
+                let seq = if *seq_is_cookie { cookies[gi] } else { 101u32.wrapping_add(off[fi] as u32) };
+                flows[fi].seg(seq, cookies[gi].wrapping_add(1), *flags, &[])
+            }
+            HStep::Alias { kind, mac, same_ip } => {
+                let mut n = net.clone();
+                if *same_ip {
+                    n.cmac = *mac;
+                } else {
+                    n.cip = other_ip(&net.cip, mac[5]);
+                    if c.scn.cfg.denied(&n.cip) {
+                        n.cip = net.cip;
+                    }
+                }
+                match (*kind % 4, &n.cip, &n.sip) {
+                    (0, IpAddr::V4(ci), IpAddr::V4(si)) => arp_req_frame(&n.cmac, &n.dmac, ci.octets(), si.octets()),
+                    (0, _, IpAddr::V6(si)) => ns_frame(&n, &si.octets(), &[1, 1, n.cmac[0], n.cmac[1], n.cmac[2], n.cmac[3], n.cmac[4], n.cmac[5]]),
+                    (1, _, _) => echo_frame(&n, 7, 7, b"alias"),
+                    (2, _, _) => tcp_frame(&n, &TcpH::new(c.sport, c.dport, 5, 0, F_SYN), &[]),
+                    _ => udp_frame(&n, c.sport, c.dport, &StunReq { mtype: 1, magic: true, id: [3; 16], attrs: vec![] }.bytes()),
+                }
+            }
             HStep::Other(s) => world.realize(s),
         };
         let out = sut.frame(&frame);
@@ -190,7 +221,7 @@ pub fn check(c: &Case, st: &mut Stats) -> Check {
         }
     }
     let _ = other_flow_data_seen;
-    let kinds: Vec<&str> = c.hist.iter().map(|h| match h { HStep::Chunk { .. } => "chunk", HStep::BadAck { .. } => "bad-ack", HStep::Syn { .. } => "syn", HStep::Other(_) => "other" }).collect();
+    let kinds: Vec<&str> = c.hist.iter().map(|h| match h { HStep::Chunk { .. } => "chunk", HStep::BadAck { .. } => "bad-ack", HStep::Syn { .. } => "syn", HStep::NonData { .. } => "non-data-tcp(ack related to another flow's cookie)", HStep::Alias { .. } => "alias(shared IP or MAC)", HStep::Other(_) => "other" }).collect();
     for k in &kinds {
         st.class(&format!("hist:{}", k));
     }
